@@ -241,7 +241,7 @@ def check(prop, tier):
     if prop not in PLAN:
         die("no check is registered for %s" % prop)
     t_start = time.time()
-    base = int(os.environ.get("VERIF_SEED", DEFAULT_SEED))
+    base = int(os.environ.get("VERIF_SEED", DEFAULT_SEED)) % (2 ** 62)  # any integer is accepted
     plan = PLAN[prop]["q" if tier == "quick" else "t"]
     known = load_known()
     os.makedirs(REPLAYS, exist_ok=True)
